@@ -219,7 +219,22 @@ def ticker_stop(ex, g, fid, args):
 @exact("(*golang.org/x/sync/errgroup.Group).Go")
 def eg_go(ex, g, fid, args):
     grp = args[0]
-    st = ex.wg.setdefault(("eg", id(grp.cont), grp.idx), {"err": None})
+    st = ex.wg.setdefault(("eg", id(grp.cont), grp.idx), {"err": None, "live": 0})
+    if "egconc" in ex.opts.get("stubs", ()):
+        # concurrent model (//verif: stubs=egconc): the closure runs on its own goroutine
+        st["live"] += 1
+        ng = ex.new_goroutine()
+
+        def done(res):
+            if res is not None and st["err"] is None:
+                st["err"] = res
+            st["live"] -= 1
+            from .intercepts import wake_retriers
+            wake_retriers(ex)
+            return None
+
+        ex.enter(ng, args[1].fid, [], args[1].bindings, None, on_return=(done, None, None))
+        return None
 
     def then(res):
         if res is not None and st["err"] is None:
@@ -232,7 +247,11 @@ def eg_go(ex, g, fid, args):
 @exact("(*golang.org/x/sync/errgroup.Group).Wait")
 def eg_wait(ex, g, fid, args):
     grp = args[0]
-    st = ex.wg.setdefault(("eg", id(grp.cont), grp.idx), {"err": None})
+    st = ex.wg.setdefault(("eg", id(grp.cont), grp.idx), {"err": None, "live": 0})
+    if st.get("live", 0) > 0:
+        from .intercepts import park_retry
+        park_retry(ex, g)
+        return None
     return st["err"]
 
 
